@@ -178,6 +178,7 @@ type Scenario struct {
 	ReadPauseTo   int  // ms at which it reads again (0 with ReadPauseFrom > 0 = never again): back-pressure on the client's writer
 	ToPanelCap    int  // capacity of the msgsToPanel channel (0 = unbuffered)
 	SharedBacking bool // all lists of one submitter are sub-slices of ONE array with spare capacity behind each of them
+	NilToPanel    bool // ConnectToPanel is given a nil msgsToPanel channel (a listen-only client)
 	FloodKB       int  // an extra submitter hands in 32 KiB graphics states (not listed in the case) from SubStart on until that many KiB are in or the context ends
 }
 
@@ -196,10 +197,13 @@ func (sc *Scenario) knobSuffix() string {
 	if sc.FloodKB > 0 {
 		s += fmt.Sprintf("-FLOOD%d", sc.FloodKB)
 	}
+	if sc.NilToPanel {
+		s += "-NILTP"
+	}
 	return s
 }
 
-var knobRe = regexp.MustCompile(`-(PF|PT|CAP|FLOOD)(\d+)|-(SHARED)`)
+var knobRe = regexp.MustCompile(`-(PF|PT|CAP|FLOOD)(\d+)|-(SHARED|NILTP)`)
 
 func (sc *Scenario) parseKnobs() {
 	for _, m := range knobRe.FindAllStringSubmatch(sc.ID, -1) {
@@ -215,6 +219,8 @@ func (sc *Scenario) parseKnobs() {
 			sc.FloodKB = v
 		case m[3] == "SHARED":
 			sc.SharedBacking = true
+		case m[3] == "NILTP":
+			sc.NilToPanel = true
 		}
 	}
 }
@@ -466,6 +472,10 @@ func runScenario(sc *Scenario) []Sx {
 				}
 				close(returned)
 			}()
+			if sc.NilToPanel {
+				rwl.ConnectToPanel(addr, nil, fromPanel, ctx, &wg, onconnect, ondisconnect, cfg)
+				return
+			}
 			rwl.ConnectToPanel(addr, toPanel, fromPanel, ctx, &wg, onconnect, ondisconnect, cfg)
 		}()
 		wgDone := make(chan struct{})
